@@ -150,6 +150,8 @@ func applyProfile(t *Tape, property string, sc *Scenario, cfg *Config) {
 		if sc.MaxSurge == "0" && sc.MaxUnav == "0" {
 			sc.MaxUnav = "1"
 		}
+		// ready-but-not-yet-available windows
+		sc.MinReady = []int{0, 0, 5, 30}[t.Next(4)]
 	case "C09":
 		if t.Next(3) == 0 {
 			sc.Events = append(sc.Events, UserEvent{Kind: "shrink-plan-late"}, UserEvent{Kind: "delete-rollout-late"})
@@ -231,6 +233,13 @@ func applyProfile(t *Tape, property string, sc *Scenario, cfg *Config) {
 			}
 		}
 		sc.Events = append(keep, ev)
+		// sometimes the BatchRelease object itself is deleted under the controllers' feet
+		switch t.Next(6) {
+		case 1:
+			sc.Events = append([]UserEvent{{Kind: "delete-batchrelease-claim-window"}}, sc.Events...)
+		case 2:
+			sc.Events = append([]UserEvent{{Kind: "delete-batchrelease", AtStep: 1 + t.Next(len(sc.Steps)), AtState: stepStates[t.Next(len(stepStates))]}}, sc.Events...)
+		}
 	}
 	if property == "C06" && t.Next(3) != 0 {
 		// most crash/fault runs use an undisturbed release so that the final state is comparable with the fault-free one
